@@ -570,3 +570,94 @@ def rule_F4e(ctx, funcs: Iterable[FuncInfo], label: str):
                       msg=f"`{var}.{attr}` is read under isinstance({var}, {cn}) but no class in that hierarchy defines "
                           f"`{attr}` (AttributeError whenever this branch runs)")
     ctx.ok("F4e", f"{label}: {n} functions scanned")
+
+
+# --------------------------------------------------------------------------- F11
+# truthiness of a quantity for which 0 is a valid value
+
+ZERO_VALID_ATTRS = {
+    "number": "a measure / ending number (bar 0 is a numbered pickup bar)",
+    "t": "a time point position (0 is the start of the timeline)",
+    "fifths": "a key signature (0 = C major / a minor)",
+    "octave": "an octave (octave 0 exists: MIDI 12..23)",
+    "midi_pitch": "a MIDI pitch (0 is a valid pitch)",
+}
+ZERO_VALID_KEYS = {
+    "track": "a MIDI track number", "channel": "a MIDI channel", "pitch": "a MIDI pitch", "midi_pitch": "a MIDI pitch",
+    "time": "a time in seconds (0 = start)", "time_tick": "a time in ticks", "note_on": "an onset in seconds", "note_off": "an offset in seconds",
+    "note_on_tick": "an onset in ticks", "note_off_tick": "an offset in ticks", "onset_div": "an onset", "onset_beat": "an onset",
+    "onset_quarter": "an onset", "onset_sec": "an onset", "number": "a controller / measure number", "value": "a controller value",
+}
+
+_F11_POSITIVE = """
+def f(m, c, prev):
+    a = m.number or prev
+    if not c["track"]:
+        pass
+    b = 1 if c.get("channel") else 2
+    d = [x for x in m if x.start.t]
+    while m.fifths and a:
+        pass
+"""
+
+
+def _truth_operands(fnode):
+    """expressions whose truth value is taken (if/while/ifexp tests, operands of and/or/not, comprehension filters)"""
+    def leaves(t):
+        while isinstance(t, ast.UnaryOp) and isinstance(t.op, ast.Not):
+            t = t.operand
+        if isinstance(t, ast.BoolOp):
+            for v in t.values:
+                yield from leaves(v)
+        else:
+            yield t
+    for n in own_nodes(fnode):
+        if isinstance(n, (ast.If, ast.While, ast.IfExp)):
+            yield from ((x, n) for x in leaves(n.test))
+        elif isinstance(n, ast.BoolOp) and not isinstance(getattr(n, "_parent", None), (ast.If, ast.While, ast.BoolOp)) \
+                and not (isinstance(getattr(n, "_parent", None), ast.IfExp) and n._parent.test is n) \
+                and not (isinstance(getattr(n, "_parent", None), ast.UnaryOp)):
+            vals = n.values[:-1]  # the last operand of a value-level and/or is returned, not tested
+            for v in vals:
+                yield from ((x, n) for x in leaves(v))
+        elif isinstance(n, ast.UnaryOp) and isinstance(n.op, ast.Not) and not isinstance(getattr(n, "_parent", None), (ast.If, ast.While, ast.BoolOp, ast.UnaryOp)):
+            yield from ((x, n) for x in leaves(n.operand))
+        elif isinstance(n, ast.comprehension):
+            for i in n.ifs:
+                yield from ((x, n) for x in leaves(i))
+
+
+def zero_valid_truth_tests(fnode):
+    for e, ctxnode in _truth_operands(fnode):
+        if isinstance(e, ast.Attribute) and e.attr in ZERO_VALID_ATTRS:
+            yield e, ZERO_VALID_ATTRS[e.attr]
+        elif isinstance(e, ast.Subscript) and isinstance(e.slice, ast.Constant) and e.slice.value in ZERO_VALID_KEYS:
+            yield e, ZERO_VALID_KEYS[e.slice.value]
+        elif isinstance(e, ast.Call) and isinstance(e.func, ast.Attribute) and e.func.attr == "get" and e.args \
+                and isinstance(e.args[0], ast.Constant) and e.args[0].value in ZERO_VALID_KEYS \
+                and (len(e.args) == 1 or (isinstance(e.args[1], ast.Constant) and not e.args[1].value)):
+            yield e, ZERO_VALID_KEYS[e.args[0].value]
+
+
+def rule_F11(ctx, modnames, label):
+    rule = "F11"
+    ctx.rule(rule, "no truth test (if / while / and / or / not / conditional expression / comprehension filter) of a quantity for which "
+                   "0 is a valid value (measure number, time point, fifths, octave, MIDI pitch, track, channel, times): such a test treats "
+                   "the valid value 0 like a missing one; `is None` is the test for missing")
+    # the matcher must recognise the idioms (rule whose expected count on the tree is zero: positive example on every run)
+    import ast as _ast
+    t = _ast.parse(_F11_POSITIVE)
+    for p in _ast.walk(t):
+        for c in _ast.iter_child_nodes(p):
+            c._parent = p
+    pos = list(zero_valid_truth_tests(t.body[0]))
+    if len(pos) != 5:
+        raise AnalysisError(rule, "positive-example", f"the matcher recognises {len(pos)}/5 idioms of its own positive example")
+    n = 0
+    for m in modnames:
+        for f in ctx.prog.functions_in(m):
+            n += 1
+            for e, what in zero_valid_truth_tests(f.node):
+                ctx.fail(rule, f"{f.qname}: `{norm(e)}`", f.qname, f"truthiness-of-zero-valid:{norm(e)[:40]}", f.module.relpath, e.lineno,
+                         f"`{norm(e)}` is {what}: 0 is a valid value, but this test treats it like None/absent")
+    ctx.ok(rule, f"{label}: {n} functions in {len(modnames)} module(s), no truth test of a zero-valid quantity")
